@@ -228,10 +228,16 @@ func ParseMessage(reader *bufio.Reader) (*Message, error) {
 	if contentLength < 0 {
 		return nil, errors.New("invalid negative Content-Length field")
 	}
-	msg.body = make([]byte, contentLength)
-	if _, err = io.ReadFull(reader, msg.body); err != nil {
+	// read through a limited reader, so the memory used follows the bytes
+	// really received and not the length the peer declares
+	body, err := io.ReadAll(io.LimitReader(reader, int64(contentLength)))
+	if err != nil {
 		return nil, err
 	}
+	if len(body) != contentLength {
+		return nil, io.ErrUnexpectedEOF
+	}
+	msg.body = body
 	return msg, nil
 }
 
